@@ -11,7 +11,17 @@ import vlib
 from checks import gsp_util
 
 
+def replay(c):
+    _, reset = gsp_util.load_replay(c)
+    trace = c.path("replay_trace.ndjson")
+    c.vh(["gsp-processor", "seed=%d" % reset["seed"], trace])
+    r = gsp_util.validate_many(c, "gsp", "ProcessorTrace", trace, parallel=1)
+    return gsp_util.finish_replay(c, r, "Processor (same seeded inputs, new schedule)")
+
+
 def run(c):
+    if c.replay:
+        return replay(c)
     W = 6
     res = c.tlc_must_pass("gsp", "MC_Processor", cfg="MC_Processor", workers=4, timeout=900)
     c.log("MC_Processor: %d distinct states, invariants hold" % res.distinct)
